@@ -11,7 +11,17 @@ Definition no_nul (s : bytes) : Prop := Forall (fun c => c <> 0) s.
 Lemma no_nul_cons c s : no_nul (c :: s) -> c <> 0 /\ no_nul s.
 Proof. intros H. inversion H; auto. Qed.
 
-Lemma iswhite_blank c : iswhite c = blank c. Proof. reflexivity. Qed.
+(* ties to the generated tables and limits: these break (and the check then looks for the input) when the
+   C macro / constants change *)
+Lemma iswhite_blank : forall c, iswhite c = blank c.
+Proof.
+  apply sweep256.
+  - vm_compute. reflexivity.
+  - intros c Hc. unfold iswhite, blank. rewrite tbl_big by (vm_compute length; lia).
+    symmetry. repeat (apply orb_false_iff; split); apply N.eqb_neq; lia.
+Qed.
+Lemma max_arg_eq : DBUS_MAXIMUM_MATCH_RULE_ARG_NUMBER = SPEC_MAX_ARG. Proof. reflexivity. Qed.
+Lemma max_len_eq : DBUS_MAXIMUM_MATCH_RULE_LENGTH = SPEC_MAX_RULE_LENGTH. Proof. reflexivity. Qed.
 
 Lemma blank_not_eq c : blank c = true -> (c =? 61) = false.
 Proof.
